@@ -151,6 +151,12 @@ Qed.
 Lemma cdiv_mono n m R : 0 < R -> n <= m -> cdiv n R <= cdiv m R.
 Proof. intros. unfold cdiv. apply N.div_le_mono; lia. Qed.
 
+Lemma cdiv_ge_mul n R : 0 < R -> n <= cdiv n R * R.
+Proof.
+  intros HR. unfold cdiv. pose proof (N.div_mod (n + R - 1) R ltac:(lia)) as Hd.
+  pose proof (N.mod_lt (n + R - 1) R ltac:(lia)). nia.
+Qed.
+
 Lemma cdiv_add_le a b R : 0 < R -> b <= R -> cdiv (a + b) R <= cdiv a R + 1.
 Proof.
   intros HR Hb. unfold cdiv.
